@@ -189,7 +189,16 @@ func genAuthzPlan(tp *simrt.Tape, seed uint64, tier string) any {
 	ua := []string{"op", "unop", "present", "unpresent", "shutup", "unshutup", "kick", "identify", "setdata"}
 	for k := 0; k < n; k++ {
 		c := tp.Draw(p.Clients)
-		switch tp.Weighted(8, 8, 4, 3, 3, 2, 2, 2, 2, 2, 2) {
+		switch tp.Weighted(8, 8, 4, 3, 3, 2, 2, 2, 2, 2, 2, 2) {
+		case 11:
+			// a moderation action is issued on a member that changes group
+			// straight away: the action must not follow it there
+			d := tp.Draw(p.Clients)
+			u := users[tp.Draw(len(users))]
+			p.Ops = append(p.Ops,
+				confOp{Kind: "useraction", C: c, Sub: []string{"op", "present", "unshutup", "unpresent"}[tp.Draw(4)], Dest: d},
+				confOp{Kind: "leave", C: d},
+				confOp{Kind: "join", C: d, Group: []string{"g2", "g1"}[tp.Draw(2)], User: u.Name, Pass: u.Pass})
 		case 0:
 			sub := ga[tp.Draw(len(ga))]
 			op := confOp{Kind: "groupaction", C: c, Sub: sub}
